@@ -1,0 +1,111 @@
+//go:build verif
+// +build verif
+
+package p2p
+
+import (
+	"context"
+
+	"github.com/golang/protobuf/proto"
+	"github.com/golang/protobuf/ptypes"
+
+	"github.com/DOSNetwork/core/p2p/discover"
+	"github.com/DOSNetwork/core/suites"
+)
+
+// Verification hooks for the request/reply path and the secure channel
+// (build tag verif): thin exports, no logic of their own.
+
+// --- peer lookup override -------------------------------------------------
+
+type verifMembers struct {
+	discover.Membership
+	f func(id []byte) string
+}
+
+func (m *verifMembers) Lookup(id []byte) string { return m.f(id) }
+
+// VerifSetLookup points the node's peer lookup at f (call before Listen).
+func VerifSetLookup(p P2PInterface, f func(id []byte) string) {
+	s := p.(*server)
+	s.members = &verifMembers{Membership: s.members, f: f}
+}
+
+// --- codec exports ----------------------------------------------------------
+
+func VerifEncode(msg proto.Message, sender []byte, sign func([]byte) ([]byte, error), nonce uint64, reply bool) ([]byte, error) {
+	return encodeProto(msg, sender, sign, nonce, reply)
+}
+
+func VerifDecodeBytes(b []byte, verify func(msg, sig []byte) error) (*Package, ptypes.DynamicAny, error) {
+	return decodeBytes(b, verify)
+}
+
+// --- request object -----------------------------------------------------------
+
+// VerifRequest wraps the unexported request object.
+type VerifRequest struct{ r *p2pRequest }
+
+func VerifNewRequest(ctx context.Context, isReply bool, id []byte, msg proto.Message, nonce uint64) *VerifRequest {
+	t := sendReq
+	if isReply {
+		t = replyReq
+	}
+	return &VerifRequest{r: NewP2pRequest(ctx, t, id, "", msg, nonce)}
+}
+
+func (v *VerifRequest) Wait() (interface{}, error)           { return v.r.waitForResult() }
+func (v *VerifRequest) Cancel()                              { v.r.cancel() }
+func (v *VerifRequest) ReplyResult(res interface{}, e error) { v.r.replyResult(res, e) }
+
+// Copy is what a by-value hand-off through a channel does to the request.
+func (v *VerifRequest) Copy() *VerifRequest { c := *v.r; return &VerifRequest{r: &c} }
+
+// TryRecv is a non-blocking receive on the request's reply channel:
+// 0 nothing ready, 1 a value, 2 closed.
+func (v *VerifRequest) TryRecv() (state int, res interface{}, err error) {
+	select {
+	case x, ok := <-v.r.reply:
+		if !ok {
+			return 2, nil, nil
+		}
+		return 1, x.res, x.err
+	default:
+		return 0, nil, nil
+	}
+}
+
+// --- client.dispatch / packPipe with injected channels -------------------------
+
+// VerifDispatcher runs the real client.dispatch (followed by the real
+// client.packPipe) on channels the caller owns; there is no connection.
+type VerifDispatcher struct {
+	c     *client
+	Reply chan P2PMessage // what decodePipe would feed: replies
+	Recv  chan P2PMessage // what decodePipe would feed: other messages
+	Feed  chan P2PMessage // the server's peersFeed
+	Errc  chan error
+	Out   chan []byte // encoded packages leaving packPipe
+}
+
+func VerifNewDispatcher(localID []byte, peerSendCap int) *VerifDispatcher {
+	c := &client{localID: localID, errc: make(chan error)}
+	c.ctx, c.cancel = context.WithCancel(context.Background())
+	c.peerSend = make(chan p2pRequest, peerSendCap)
+	c.peerFeed = make(chan P2PMessage)
+	c.suite = suites.MustFind("bn256")
+	c.localSecKey = c.suite.Scalar().Pick(c.suite.RandomStream())
+	c.localPubKey = c.suite.Point().Mul(c.localSecKey, nil)
+	d := &VerifDispatcher{c: c, Reply: make(chan P2PMessage), Recv: make(chan P2PMessage), Feed: c.peerFeed, Errc: c.errc}
+	d.Out = c.packPipe(c.dispatch(d.Reply, d.Recv))
+	return d
+}
+
+// Send is what client.send does with a request: a by-value send on peerSend.
+func (d *VerifDispatcher) Send(v *VerifRequest) error { return v.r.sendReq(d.c.peerSend) }
+
+// ClientSend is the real client.send (spawns its goroutine).
+func (d *VerifDispatcher) ClientSend(v *VerifRequest) { d.c.send(*v.r) }
+
+func (d *VerifDispatcher) Cancel()               { d.c.cancel() }
+func (d *VerifDispatcher) Done() <-chan struct{} { return d.c.ctx.Done() }
